@@ -26,8 +26,15 @@ CASE_TIMEOUT = 120
 NAMES = ["a", "b", "c", "d"]
 
 
+SHAPES = [[-1, 2], [2, -1], [-1, 3], [2, 2], [3, -1], [1, 2], [2]]
+# dyads whose LEFT operand is a control value (shape, count, positions): %(l)s is a variable or a literal, %(r)s a list variable
+LEFT_DYADS = ["%(l)s:^%(r)s", "%(l)s#%(r)s", "%(l)s:#%(r)s", "%(l)s:_%(r)s", "%(l)s:+%(r)s", "%(r)s@%(l)s", "%(l)s_%(r)s", "%(l)s,%(r)s", "%(l)s?%(r)s", "%(l)s!%(r)s", "%(l)s+%(r)s"]
+
+
 def _lit(rng):
     r = rng.random()
+    if r < 0.06:
+        return L([I(x) for x in rng.choice(SHAPES)])
     if r < 0.2:
         return L([I(rng.randint(-5, 9)) for _ in range(rng.randint(1, 5))])
     if r < 0.3:
@@ -141,7 +148,7 @@ def _gen_history(rng, n):
         elif r < 0.72:
             fn = rng.choice(["f", "g", "h"])
             body = rng.choice(["{x,x}", "{|x}", "{x:=77,0}", "{[t];t::x;t::t:=55,0;t}", "{1_x}", "{:{[1 2]}}", "{[1 2 3]}", "{[[1 2] [3 4]]:-x,[0 1]}",
-                               "{x@0}", "{(x@0),x}"])
+                               "{x@0}", "{(x@0),x}", "{[-1 2]:^x}", "{[2 -1]:^x}", "{[1 2]:#x}", "{[0 1]:_x}", "{[1 0]@x}"])
             st.append({"text": "%s::%s" % (fn, body), "assigns": [fn], "kind": "fndef", "def": (fn, body)})
             fns[fn] = body
         elif r < 0.84 and fns and have:
@@ -158,7 +165,20 @@ def _gen_history(rng, n):
                 assign(tgt, call, "call:assign", None)
             else:
                 st.append({"text": call, "assigns": [], "kind": "call:expr"})
-        elif r < 0.93 and lists:
+        elif r < 0.875 and lists:
+            # a dyad whose left operand is a control value held in a variable (or a literal evaluated again later): neither operand may change
+            src = rng.choice(lists)
+            ctl = [x for x in have if vals[x][0] == "L" and vals[x][1] and all(e[0] == "I" for e in vals[x][1])]
+            if ctl and rng.random() < 0.7:
+                left = rng.choice(ctl)
+            else:
+                left = render(L([I(x) for x in rng.choice(SHAPES)])) if rng.random() < 0.7 else str(rng.randint(-3, 4))
+            txt = rng.choice(LEFT_DYADS[:1] * 4 + LEFT_DYADS) % {"l": left, "r": src}
+            if rng.random() < 0.4:
+                assign(tgt, txt, "control-dyad:assign", None)
+            else:
+                st.append({"text": txt, "assigns": [], "kind": "control-dyad:expr"})
+        elif r < 0.95 and lists:
             src = rng.choice(lists)
             e = rng.choice(["+/%s", "{x}'%s", "%s+%s", ",/%s", "{x,x}'%s", "|/%s", "#'%s", "%s=%s", "&/%s", "+\\%s", "-%s"])
             st.append({"text": e.replace("%s", src), "assigns": [], "kind": "adverb-or-arith"})
@@ -175,7 +195,7 @@ def cases(tier, seed):
     n = 3000 if tier == "quick" else 40000
     out = []
     for i in range(n):
-        out.append({"history": _gen_history(rng, rng.randint(4, 12)), "module": (i % 9 == 0)})
+        out.append({"history": _gen_history(rng, rng.randint(5, 14)), "module": (i % 9 == 0)})
     return out
 
 
